@@ -3,6 +3,9 @@
 #
 # One case = one history:  DL <t0> | M <dt> <pgn> <src> <dst> <datahex> [<sendok>] ; ... ; Q
 #   (see harness/h_devlist.cpp for the result line).
+# Metamorphic family (C13 for the device list, finding D-20):  DLS <t0>,<t0>,... | <operations>  runs the same history from several
+# clock origins (5000, 0, 2^31 -+ k, 2^32 - k); every origin must satisfy the property above and all origins must produce the same ISO
+# requests at the same times relative to the origin (oracle key `pacing-origin`).
 #
 # How the oracle reads the property (the abstract mirror, replayed here without any knowledge of the Coq model):
 #   * NAME of a claim = little-endian value of the first 8 payload bytes, all-ones ("not available") if the payload is shorter.
@@ -160,6 +163,49 @@ def case(t0, ops):
     return 'DL %d | %s' % (t0, ' ; '.join(ops))
 
 
+def origins_for(total):
+    ks = sorted({1, 500, max(2, total)})
+    o = [5000, 0]
+    for k in ks:
+        o += [(1 << 31) - k, (1 << 31) + k, (1 << 32) - k]
+    return o
+
+
+def mcase(ops):
+    """the same history from clock origins 5000, 0, 2^31 -+ k, 2^32 - k for k = 1, 500, duration of the history"""
+    total = sum(int(o.split()[1]) for o in ops if o.startswith('M '))
+    return 'DLS %s | %s' % (','.join(str(x) for x in origins_for(total)), ' ; '.join(ops))
+
+
+def pacing_walk(r, nops):
+    """few devices, mostly traffic that drives the request pacing, time steps around the pacing constants"""
+    srcs = r.sample(range(0, 252), r.choice([1, 2, 3, 4]))
+    names = [0x5000 + i for i in range(len(srcs) + 1)]
+    pis = [prodinfo(r) for _ in srcs]
+    ops = []
+    for i, s in enumerate(srcs):
+        if r.random() < 0.7:
+            ops.append(M(r.choice([0, 1, 300]), 60928, s, claim(names[i])))
+        else:
+            ops.append(M(r.choice([0, 1, 300]), 127250, s, b'\0' * 8))
+    for k in range(nops):
+        dt = r.choice([0, 1, 1, 250, 499, 500, 501, 999, 1000, 1000, 1001, 1001, 1001, 1002, 1500, 2000, 2001, 3000, 59999, 60000, 60001])
+        s = r.choice(srcs)
+        ok = r.random() > 0.08
+        x = r.random()
+        if x < 0.70:
+            ops.append(M(dt, r.choice([127250, 129025, 130306, 59904]), s, b'\0' * 8, ok))
+        elif x < 0.78:
+            ops.append(M(dt, 60928, s, claim(r.choice(names)), ok))
+        elif x < 0.86:
+            ops.append(M(dt, 126996, s, r.choice(pis), ok))
+        elif x < 0.93:
+            ops.append(M(dt, 126998, s, confinfo(r), ok))
+        else:
+            ops.append(M(dt, 126464, s, pgnlist(r, r.choice([0, 1])), ok))
+    return ops
+
+
 def walk(r, nops, srcs, names, qevery, wclaim=3, big=False):
     """random walk over a small universe of sources and NAMEs"""
     ops = []
@@ -247,6 +293,12 @@ def gen(seed, tier):
         if thorough or t0 in (0, 0x80010000, 0xFFFFF000):
             for k in (1, 1000, 2002, 4000):
                 cases.append(case((t0 - k) % (1 << 32), walk(r, 40, [10, 11, 12], N[:3], 0, wclaim=1)))
+    # --- the same history from many clock origins (request pacing must depend on elapsed time only)
+    d20 = [M(0, 60928, 10, claim(N[0])), M(1500, 127250, 10, b'\0')] + [M(1001, 127250, 10, b'\0')] * 12
+    cases.append(mcase(d20))
+    cases.append(mcase([M(0, 127250, 40, b'\0' * 8)] + [M(dt, 127250, 40, b'\0' * 8) for dt in (999, 1, 1, 1000, 1001, 30000, 29999, 1, 1, 1001, 60001, 1001)]))
+    for i in range(24 if not thorough else 300):
+        cases.append(mcase(pacing_walk(r, r.choice([15, 25, 40]))))
     # --- small universes, dump after every message (precise check of the updated flag)
     for i in range(400 if not thorough else 4000):
         srcs = r.choice([[10, 11, 12], [0, 1, 2, 3], [0, 1, 2], [0, 5, 252, 253], [3, 4, 5, 254, 255, 6], [40, 30, 50], [0, 253]])
@@ -382,11 +434,48 @@ def want_list(d):
     return (d[0], ANY if (len(d) - 1) % 3 else l)
 
 
+REQ = re.compile(r'(\d+):(\d+):(\d+)')
+
+
+def rel_log(t0, res):
+    """per operation: the requests as (time relative to the origin, destination, requested PGN)"""
+    log = []
+    for part in res.split(' ; '):
+        if part.startswith('u='):
+            rq = part.split('req=', 1)[1] if 'req=' in part else '-'
+            log.append(tuple(((int(a) - t0) % (1 << 32), int(b), int(c)) for a, b, c in REQ.findall(rq)))
+    return log
+
+
 def oracle(case, res):
     if res.startswith('crash'):
         return 'memory:%s' % res
     if res in ('badcase', 'skip'):
         return None
+    if case.startswith('DLS '):
+        head, rest = case.split('|', 1)
+        t0s = [int(x) for x in head.split()[1].split(',') if x]
+        parts = res.split(' || ')
+        if len(parts) != len(t0s):
+            return 'protocol:result has %d parts for %d clock origins' % (len(parts), len(t0s))
+        for t0, part in zip(t0s, parts):
+            w = oracle1('DL %d |%s' % (t0, rest), part)
+            if w:
+                return w + ' [clock origin %d]' % t0
+        ref = rel_log(t0s[0], parts[0])
+        for t0, part in zip(t0s[1:], parts[1:]):
+            log = rel_log(t0, part)
+            if log != ref:
+                k = next(i for i in range(max(len(log), len(ref))) if i >= len(log) or i >= len(ref) or log[i] != ref[i])
+                return ('pacing-origin:the same history from clock origin %d (0x%x) sends other ISO requests than from origin %d: message %d: %s against %s '
+                        '(time relative to the origin, destination, requested PGN)' % (t0, t0, t0s[0], k, log[k] if k < len(log) else None, ref[k] if k < len(ref) else None))
+        return None
+    return oracle1(case, res)
+
+
+def oracle1(case, res):
+    if res.startswith('crash'):
+        return 'memory:%s' % res
     t0, ops = parse_case(case)
     outs = res.split(' ; ')
     if len(outs) != len(ops):
@@ -482,7 +571,7 @@ def oracle(case, res):
 
 
 def nontrivial(case, mres):
-    return ' 60928 ' in case and mres != 'badcase'
+    return (' 60928 ' in case or case.startswith('DLS ')) and mres != 'badcase'
 
 
 def known(case, what):
@@ -499,11 +588,13 @@ def check(run, replay=None):
     cases = vlib.read_replay(replay) if replay else vlib.corpus_lines('C18') + gen(run.seed, run.tier)
     run.cov['rule'] = ('cases = committed corpus + hand written boundary histories (NAME 0 claims on placeholders, move/takeover/re-claim/return, parked devices, first product '
                        'information rule, configuration information repeated with other sizes, PGN lists of 0..74 entries, sources 251..255) + request pacing from 16 clock origins '
-                       '(0, 2^31 +- k, 2^32 - k) + random walks over small universes of sources and NAMEs with a dump after every message + long histories over up to 13 sources with '
+                       '(0, 2^31 +- k, 2^32 - k) + metamorphic family: the D-20 witness, a NAME request history and pacing walks (1-4 devices, steps around 1000 ms and 60 s, claims, arriving '
+                       'information, send failures) each run from 11 clock origins (5000, 0, 2^31 -+ k, 2^32 - k for k = 1, 500, duration) and compared on the request log relative to the origin '
+                       '+ random walks over small universes of sources and NAMEs with a dump after every message + long histories over up to 13 sources with '
                        'payload filling strings + all 254 slots claimed followed by takeovers + up to 252 unknown sources; messages: claims (8 bytes, shorter, longer), 126996 (valid, over-long, '
                        'truncated; drawn from a pool of 2-3 payloads per history so that identical product information is repeated after claims), 126998 (ASCII / UCS-2 incl. strings of 3-byte-UTF-8 characters up to the whole payload (UTF-8 form up to 324 bytes) / empty / malformed / truncated / payload filling), 126464 (0..74 PGNs, both kinds, other kinds, stray bytes), other PGNs; send failures; '
                        'non-trivial = distinct history containing at least one address claim')
-    run.assumptions += ['LP64 build (unsigned long is 64 bits): the pacing arithmetic of the model is the one of this build; the 32-bit clock value is an input of every message',
+    run.assumptions += ['the 32-bit clock value is an input of every message; the harness runs the 64-bit clock at 2^32 + t0 (the device list reads only N2kMillis())',
                         'SendMsg() of the attached node is abstracted to one success flag per handled message (harness: node switched to listen-only for the message)',
                         'malloc never fails; product information strings are modelled by their result (C string of the 33-byte field), not byte by byte']
     vlib.correspond(run, 'devlist', 'h_devlist', 'w64', 'C18', cases, oracle, nontrivial, known=known)
